@@ -53,6 +53,10 @@ def base_desc(mode, viz=False, maps=False):
 
 
 def case_base(case):
+    if case.get("maproutes"):
+        d = C.maproutes_project(full=(case["maproutes"] == "full"))
+        d["cfg"]["validation_library"] = case["base"]
+        return d
     if case.get("routes"):
         d = C.routes_project()
         d["cfg"]["validation_library"] = case["base"]
@@ -352,6 +356,23 @@ def route_histories(tier, rng):
     return cases
 
 
+def mapping_histories():
+    """class of seeded C08-12: configuration-only edits of ONE type_mappings entry whose Rust type is mentioned through
+    one route only (event payload of a helper, inside Vec of an event payload, channel message, return type, struct
+    field, parameter): change the target / remove the entry / remove and add it back (base with every entry), add the
+    entry (base with no mapping); typegen.json (-c) and tauri.conf.json; both routes"""
+    cases = []
+    for entry in ("cli", "build"):
+        for conf in ("cfile", "tauri"):
+            for t in C.MAP_ROUTE_TYPES:
+                for mode in (("none", "zod") if t.startswith("Ev") else ("none",)):
+                    for full, ops in (("full", ["mt:%s:target" % t]), ("full", ["mt:%s:toggle" % t]),
+                                      ("full", ["mt:%s:toggle" % t, "mt:%s:toggle" % t]), ("empty", ["mt:%s:toggle" % t]),
+                                      ("empty", ["mt:%s:toggle" % t, "mt:%s:target" % t])):
+                        cases.append({"entry": entry, "base": mode, "conf": conf, "maproutes": full, "ops": ops})
+    return cases
+
+
 def force_histories(tier, rng):
     """>= 3 runs mixing forced runs ("force": true in the configuration file: `e+force`; one run forced by --force /
     by the file: `e!`) with unforced ones and reverting to an earlier state (every edit is a toggle: `e ... e`)"""
@@ -471,7 +492,7 @@ def run(rep):
     rep.add("corpus", outs)
     rep.add("partition", eval_partition(partition_cases()))
     rep.add("text", c08_text.eval_text(c08_text.text_cases(rep.tier)))
-    cases = config_histories() + route_histories(rep.tier, rng) + loss_histories() + force_histories(rep.tier, rng) + order_histories() + visibility_histories() + naming_histories() + event_histories(rep.tier, rng) + history_cases(rep.tier, rng)
+    cases = config_histories() + mapping_histories() + route_histories(rep.tier, rng) + loss_histories() + force_histories(rep.tier, rng) + order_histories() + visibility_histories() + naming_histories() + event_histories(rep.tier, rng) + history_cases(rep.tier, rng)
     rep.extra["history_distribution"] = distribution(cases)
     total_oo = oo
     for i in range(0, len(cases), 400):
